@@ -1299,3 +1299,47 @@ pub fn mls_family_case(rng: &mut Rng) -> String {
         _ => format!("begin\n  if a then begin\n    {}\n  end else\n    {}\nend;\n", stmt, stmt),
     }
 }
+
+
+/// conditional-directive-heavy inputs: `k` sequential blocks, each nested `d` deep, with else/elseif branches
+pub fn directive_heavy(rng: &mut Rng) -> String {
+    let k = rng.range(1, 24);
+    let d = rng.range(1, 6);
+    let mut s = String::from("begin\n");
+    for i in 0..k {
+        for j in 0..d {
+            s.push_str(&format!("{{$ifdef A{}_{}}}\n", i, j));
+            s.push_str(&format!("  x{} := {};\n", j, i));
+            if rng.chance(1, 2) {
+                s.push_str(if rng.chance(1, 3) { "{$elseif B}\n" } else { "{$else}\n" });
+                s.push_str(&format!("  y{} := {} +\n", j, i));
+                if rng.chance(1, 4) {
+                    s.push_str("  begin\n");
+                }
+            }
+        }
+        for _ in 0..d {
+            s.push_str("  z;\n{$endif}\n");
+        }
+    }
+    s.push_str("end;\n");
+    s
+}
+
+/// the `i`-th token sequence in the enumeration of all sequences over SOUP (length 1, then 2, then 3, ...)
+pub fn soup_enum(mut i: usize) -> String {
+    let n = SOUP.len();
+    let mut len = 1;
+    let mut block = n;
+    while i >= block {
+        i -= block;
+        len += 1;
+        block *= n;
+    }
+    let mut parts = vec![];
+    for _ in 0..len {
+        parts.push(SOUP[i % n]);
+        i /= n;
+    }
+    parts.join(" ")
+}
